@@ -23,7 +23,7 @@ NamingOfRec(lang, o) ==
 MinOf(S) == CHOOSE x \in S : \A y \in S : x <= y
 Groups(F) == {<<f[1], f[3]>> : f \in F}
 Before(t, step) == UNION {Rng(Traces[t].ops[j].feats) : j \in 1..(step - 1)}
-HistDetail(t, step, o) == IF Before(t, step) \ Rng(o.feats) # {} THEN <<"kw-extended-by-earlier-writer">> ELSE <<"no-kw-extension">>
+HistDetail(t, step, o) == IF Before(t, step) \ Rng(o.feats) # {} THEN <<"kw-extended">> ELSE <<"same-kw">>
 Summary(F, t, step, o) ==
    {<<g[1], step, MinOf({f[2] : f \in {h \in F : h[1] = g[1] /\ h[3] = g[2]}}),
       IF g[1] = "HistoryIndependent" THEN HistDetail(t, step, o) ELSE g[2]>> : g \in Groups(F)}
